@@ -7,6 +7,7 @@ package simapp
 // misses) is answered through the app's gRPC query router and compared with the exported genesis.
 
 import (
+	gomath "math"
 	"fmt"
 	"sort"
 	"strings"
@@ -365,6 +366,34 @@ func c13CheckLedger(rep *Report, w *World, ctx sdk.Context, ledgerSig string, op
 						if off <= n && (pr == nil || pr.Total != uint64(n)) {
 							viol("listing-total-wrong", fmt.Sprintf("%s offset=%d limit=%d reverse=%v", sigBase, off, lim, reverse),
 								fmt.Sprintf("%s(%s, offset=%d, limit=%d, reverse=%v) count_total says %v, there are %d matching entries", l.rpc, pn, off, lim, reverse, pr, n))
+							continue
+						}
+						rep.Outcome("listing-ok")
+					}
+				}
+				// large page sizes (at, above and far above the default page of 100, up to 2^64-1), with every offset: the
+				// module may clamp such a page (a shorter page is fine) or refuse the request, but what it returns must
+				// start AT the requested offset, in listing order, without gaps, and make progress
+				for _, lim := range []uint64{100, 101, 1000, 1 << 32, gomath.MaxUint64} {
+					for off := 0; off <= n+1; off++ {
+						rows, _, err := w.qList(ctx, l.rpc, pn, &query.PageRequest{Offset: uint64(off), Limit: lim, Reverse: reverse, CountTotal: off%2 == 0})
+						rep.Count("probes", 1)
+						if err != nil {
+							rep.Outcome("large-limit-refused")
+							continue
+						}
+						lo := off
+						if lo > n {
+							lo = n
+						}
+						rest := ref[lo:]
+						ok := len(rows) <= len(rest) && (len(rows) > 0 || len(rest) == 0)
+						for i := 0; ok && i < len(rows); i++ {
+							ok = rows[i] == rest[i]
+						}
+						if !ok {
+							viol("offset-page-wrong", fmt.Sprintf("%s offset=%d limit=%d reverse=%v", sigBase, off, lim, reverse),
+								fmt.Sprintf("%s(%s, offset=%d, limit=%d, reverse=%v) returned %v, expected a non-empty run of the listing starting at offset %d: %v", l.rpc, pn, off, lim, reverse, rows, off, rest))
 							continue
 						}
 						rep.Outcome("listing-ok")
